@@ -20,6 +20,10 @@ type Recorder struct {
 	Stream []byte
 	Expect int // next stream position a handler is expected to read
 
+	Kind string // scenario role of this connection (scripted matchers may filter on it)
+	ID   string // connection id in multi-connection runs
+	Sink *Recorder // when set, events are ALSO appended to this shared recorder with "c": ID
+
 	T0 time.Time // when set, every event is stamped with "t" = milliseconds since T0
 
 	InHandler  bool // a recording handler is reading right now
@@ -37,6 +41,14 @@ func (r *Recorder) Add(e Ev) {
 	}
 	r.Hist = append(r.Hist, e)
 	r.mu.Unlock()
+	if r.Sink != nil {
+		c := Ev{}
+		for k, v := range e {
+			c[k] = v
+		}
+		c["c"] = r.ID
+		r.Sink.Add(c)
+	}
 }
 
 // Snapshot returns a copy of the history.
